@@ -160,7 +160,7 @@ def run(ctx: Ctx) -> None:
     quick = ctx.quick
     # table invariants: the intended design (dev = FALSE inside the operators) satisfies "only the listed requests
     # bypass" (IntendedNoLeak / IntendedIsExact).  Dev_PrefixMatch = TRUE only labels (leak # "none") the requests
-    # that the textual prefix match of the code before /repo commit a062be5 let through; the verdict on every case
+    # that the textual prefix match of the code before /repo commit fdf6a93 let through; the verdict on every case
     # comes from the real code judged against Exempt(c), never from the label.
     sanity = ["ExemptSubsetOfImpl", "IntendedNoLeak", "IntendedIsExact", "ReachNeverExempt", "OptionsNeverReach",
               "LeakOnlyTwoSites"]
